@@ -17,6 +17,7 @@ class DevProp:
     monitor_name = ""
     correspondence_name = ""
     known_signature = None  # function(case, result) -> known finding id or None
+    soak = False            # thorough tier: additional high-volume search with the extracted monitors (lib/soak.py); needs soak_case(rng)
 
     def emit(self, case, res):
         return devrun.emit_kcase(case, res)
@@ -99,6 +100,40 @@ class DevProp:
                "original_length": len(case["events"])}
         run_.violation(what, rep, no_input=no_input, signature=sig)
 
+    def report(self, run_, binary, cases, results, m, stage="", ids=None):
+        """The reporting path of a stage: crashes, monitor failures (cut after the failing step, shrunk, matched against the known
+        findings), else a view mismatch. m = evaluate(cases, results); ids = display numbers of the cases (default: positions)."""
+        ids = ids or list(range(len(cases)))
+        crashed = [i for i, r in enumerate(results) if r.get("panic") or r.get("hang")]
+        for i in crashed[:3]:
+            r = results[i]
+            self.report_case(run_, binary, cases[i], "%sthe device %s while processing a history (event %s): %s" % (
+                stage, "hung" if r.get("hang") else "panicked", r.get("panic_at"), r.get("panic")), shrink=True)
+        failing = {}
+        for item in m["FAIL"]:
+            failing[item[0]] = item[1]
+        reported = 0
+        for i in sorted(failing)[:40]:
+            if reported >= 3 and not self.known_signature:
+                break
+            before = len(run_.violations)
+            self.report_case(run_, binary, cases[i], "%s%s fails on the implementation at step(s) %s of a %d-event history (case %d%s)" % (
+                stage, self.monitor_name, failing[i][:5], len(cases[i]["events"]), ids[i], ", " + cases[i]["tag"] if cases[i].get("tag") else ""),
+                steps=failing[i])
+            if len(run_.violations) > before:
+                reported += 1
+            if len(run_.violations) >= 3:
+                break
+        mism = [it for it in m["MIS"] if it[0] not in failing]
+        if mism and not run_.violations:
+            i, step = mism[0][0], mism[0][1]
+            self.report_case(run_, binary, cases[i],
+                             "%scorrespondence %s no longer checks: the model's view differs from the implementation's at step %s of case %d "
+                             "(%d diverging cases), and no case in this run fails the property monitor" % (
+                                 stage, self.correspondence_name, step, ids[i], len(mism)),
+                             steps=[step], shrink=False, no_input=True)
+        return failing, crashed
+
     def run(self, run_, cases=None, replaying=False):
         import random
         rng = random.Random(run_.seed)
@@ -115,35 +150,8 @@ class DevProp:
             run_.violation("device harness failed: " + err,
                            {"theorem_or_correspondence": self.correspondence_name + " (harness run)", "error": err}, no_input=True)
             return
-        crashed = [i for i, r in enumerate(results) if r.get("panic") or r.get("hang")]
-        for i in crashed[:3]:
-            r = results[i]
-            self.report_case(run_, binary, cases[i], "the device %s while processing a history (event %s): %s" % (
-                "hung" if r.get("hang") else "panicked", r.get("panic_at"), r.get("panic")), shrink=True)
         m = self.evaluate(cases, results, self.pid.lower())
-        failing = {}
-        for item in m["FAIL"]:
-            failing[item[0]] = item[1]
-        reported = 0
-        for i in sorted(failing)[:40]:
-            if reported >= 3 and not self.known_signature:
-                break
-            before = len(run_.violations)
-            self.report_case(run_, binary, cases[i], "%s fails on the implementation at step(s) %s of a %d-event history (case %d%s)" % (
-                self.monitor_name, failing[i][:5], len(cases[i]["events"]), i, ", " + cases[i]["tag"] if cases[i].get("tag") else ""),
-                steps=failing[i])
-            if len(run_.violations) > before:
-                reported += 1
-            if len(run_.violations) >= 3:
-                break
-        mism = [it for it in m["MIS"] if it[0] not in failing]
-        if mism and not run_.violations:
-            i, step = mism[0][0], mism[0][1]
-            self.report_case(run_, binary, cases[i],
-                             "correspondence %s no longer checks: the model's view differs from the implementation's at step %s of case %d "
-                             "(%d diverging cases), and no case in this run fails the property monitor" % (
-                                 self.correspondence_name, step, i, len(mism)),
-                             steps=[step], shrink=False, no_input=True)
+        failing, crashed = self.report(run_, binary, cases, results, m)
         if hasattr(self, "nontrivial_py"):
             m["NT"] = [(i,) for i in range(len(cases)) if not (results[i].get("panic") or results[i].get("hang")) and self.nontrivial_py(cases[i], results[i])]
         nt = len({json.dumps([cases[it[0]]["cfg"], cases[it[0]]["events"]], sort_keys=True) for it in m["NT"]})
@@ -171,6 +179,10 @@ class DevProp:
         self.extra_coverage(run_, cases, results, m)
         if not run_.violations and not replaying and hasattr(self, "perturb"):
             self.self_test(run_, cases, results)
+        n_soak = int(os.environ.get("VERIF_SOAK", "20000"))
+        if self.soak and run_.tier == "thorough" and not run_.violations and not replaying and n_soak > 0:
+            import soak
+            soak.run_soak(self, run_, n_cases=n_soak, seed=run_.seed, binary=binary)
 
     def self_test(self, run_, cases, results, want=6):
         """Sensitivity self-test of the pipeline (emitters + Coq monitor/view): a deliberately falsified observation of the
